@@ -312,12 +312,18 @@ func oracleC01(r *OpRun) {
 				events = []string{"Added", "Modified", "Deleted"}
 			}
 			// the completed Synchronization step
+			// (a successful delivery; a failed one only counts for a binding that allows failure and only when
+			// the task was not run again - behind a head task that does not allow failure it is retried)
 			var syncX *Exec
 			var view []ObjRef
-			for _, x := range execs {
-				for _, c := range x.Ctxs {
-					if c.Type == "Synchronization" && c.Binding == b.Name && x.Hook == h.Path && (!x.Fail || b.AllowFailure) && x.EndSeq != 0 && syncX == nil {
-						syncX, view = x, c.Objects
+			for _, wantOK := range []bool{true, false} {
+				for _, x := range execs {
+					for _, c := range x.Ctxs {
+						if c.Type == "Synchronization" && c.Binding == b.Name && x.Hook == h.Path && x.EndSeq != 0 && syncX == nil {
+							if (wantOK && !x.Fail) || (!wantOK && x.Fail && b.AllowFailure) {
+								syncX, view = x, c.Objects
+							}
+						}
 					}
 				}
 			}
